@@ -4,6 +4,10 @@
      op 1 uid n bindreq bind required excl hintflag H bits*H cpu mem      Allocate (+ Update on success)
      op 2 uid                                                             Release
      op 3 uid excl k ids*k m (node cpu mem)*m                             Update (restored allocation)
+     op 4 uid n bindreq bind required excl hintflag H bits*H cpu mem hostflag host victimflag victim
+          Allocate with give-backs: preferredCPUs = remaining CPUs of live reservation [host],
+          preemptibleCPUs = CPUs of live pod [victim] (Spec.concretize); on success Release(victim)
+          and Update
    observable, per op: ok  k ids*k  m (node cpu mem)*m   L (id ref excl)*L   V avail*V
                        then (cpu mem) of allocatedResources for node 0..7 *)
 From Coq Require Import List ZArith Bool.
@@ -28,7 +32,15 @@ Definition dec_op (l : list Z) : op * list Z :=
     let '(bits, t1) := take_list t in
     match t1 with
     | c :: m :: t2 =>
-      (OAlloc (mkR uid n (zb bindreq) bind (zb required) excl (if zb hf then Some bits else None) c m), t2)
+      (OAlloc (mkR uid n (zb bindreq) bind (zb required) excl (if zb hf then Some bits else None) c m [] []), t2)
+    | _ => (ORelease (-1), [])
+    end
+  | 4 :: uid :: n :: bindreq :: bind :: required :: excl :: hf :: t =>
+    let '(bits, t1) := take_list t in
+    match t1 with
+    | c :: m :: hof :: ho :: vf :: v :: t2 =>
+      (OAllocR (mkR uid n (zb bindreq) bind (zb required) excl (if zb hf then Some bits else None) c m [] [])
+               (if zb hof then Some ho else None) (if zb vf then Some v else None), t2)
     | _ => (ORelease (-1), [])
     end
   | 2 :: uid :: t => (ORelease uid, t)
@@ -60,24 +72,36 @@ Definition dump (o : nopts) (st : lstate) : list Z :=
   ++ encode_list (fst (available (o_topo o) (o_maxref o) (o_reserved o) (l_cpus st) []))
   ++ flat_map (fun k => let r := lookup_res (Z.of_nat k) (l_numa st) in [fst r; snd r]) (seq 0 8).
 
-Definition obs_step (o : nopts) (st : lstate) (x : op) : lstate * list Z :=
+Definition obs_step (o : nopts) (st : lstate) (es : list edge) (x0 : op) : lstate * list edge * list Z :=
+  let x := match x0 with
+           | OAllocR rq0 h0 v0 => let '(rq, h, v) := concretize (l_pods st) es rq0 h0 v0 in OAllocR rq h v
+           | _ => x0
+           end in
   let '(st', r) := step o st x in
   let head :=
     match x, r with
-    | OAlloc _, Some p => [1] ++ encode_list (sortZ (p_cpus p)) ++ enc_nres (p_numa p)
-    | OAlloc _, None => [0; 0; 0]
+    | OAlloc _, Some p | OAllocR _ _ _, Some p => [1] ++ encode_list (sortZ (p_cpus p)) ++ enc_nres (p_numa p)
+    | OAlloc _, None | OAllocR _ _ _, None => [0; 0; 0]
     | _, _ => [1; 0; 0]
     end in
-  (st', head ++ dump o st').
+  let es' :=
+    match x, r with
+    | OAlloc rq, Some _ => edges_del es (r_uid rq)
+    | OAllocR rq h v, Some p => edges_alloc es rq h v (p_cpus p)
+    | ORelease uid, _ => edges_del es uid
+    | OUpdate p, _ => edges_del es (p_uid p)
+    | _, None => es
+    end in
+  (st', es', head ++ dump o st').
 
-Fixpoint run_ops (o : nopts) (st : lstate) (ops : list op) : list Z :=
+Fixpoint run_ops (o : nopts) (st : lstate) (es : list edge) (ops : list op) : list Z :=
   match ops with
   | [] => []
-  | x :: t => let '(st', out) := obs_step o st x in out ++ run_ops o st' t
+  | x :: t => let '(st', es', out) := obs_step o st es x in out ++ run_ops o st' es' t
   end.
 
 Definition run_case (inp : list Z) : list Z :=
-  let '(o, ops) := decode inp in run_ops o l_init ops.
+  let '(o, ops) := decode inp in run_ops o l_init [] ops.
 
 (* ---- parsing the implementation's observable ---- *)
 Definition dec_led (l : list Z) : (Z * Z) * list Z :=
@@ -118,7 +142,9 @@ Definition prop_case (inp obs : list Z) : Z :=
 Definition nontrivial_case (inp : list Z) : bool :=
   let '(o, ops) := decode inp in
   (3 <=? lenZ ops)
-  && existsb (fun x => match x with OAlloc rq => r_bindreq rq && (2 <=? r_n rq) | _ => false end) ops
+  && existsb (fun x => match x with
+                       | OAlloc rq | OAllocR rq _ _ => r_bindreq rq && (2 <=? r_n rq)
+                       | _ => false end) ops
   && existsb (fun x => match x with OAlloc _ => false | _ => true end) ops.
 
 (* no known finding: the FullPCPUs overshoot was fixed in 43d7136 *)
